@@ -146,7 +146,7 @@ def families() -> dict[str, Family]:
             L("join#on", "join", lambda r: r.join(T("t3")).on(t1.a == T("t3").a)),
             L("join#schema-attr", "join", lambda r: r.join(SCH.parts).on_field("parent_id")),
             # the table OBJECT that other statements of the scenario also hold (not a fresh equal one): a join that is no self-join must leave it alone
-            L("join#shared-t2", "join", lambda r: r.join(t2).on(t1.a == t2.a)),
+            L("join#shared-t2", "join", lambda r: r.join(t2).on(P.Field("k") == t2.a)),      # (a table-less column: the condition is valid over any FROM)
             L("join#using", "join", lambda r: r.join(T("t4"), JoinType.left).using("a")),
             L("join#cross", "join", lambda r: r.join(T("t5")).cross()),
             L("join#subq", "join", lambda r: r.join(sub()).on_field("z")),
